@@ -44,6 +44,14 @@ Theorem c09_failed_match_consumes_nothing : forall w s,
 Proof. exact a_match_fail_consumes_nothing. Qed.
 Print Assumptions c09_failed_match_consumes_nothing.
 
+(* A put-back the buffered stream refuses (no room in front of the read position) changes nothing at all - not the window, not the
+   read position and in particular not the line counter, whatever the character (this is stated of the buffered model itself, whose unget does not
+   depend on the buffer size: the specification stream has no notion of "no room"). *)
+Theorem c09_refused_unget_changes_nothing : forall c s,
+  fst (unget c s) = false -> snd (unget c s) = s.
+Proof. intros c s; unfold unget; destruct (rpos s); cbn; [reflexivity | discriminate]. Qed.
+Print Assumptions c09_refused_unget_changes_nothing.
+
 Theorem c09_copy_exact : forall k s, 0 <= k ->
   let '(n, bs, s') := a_copy k s in
   bs = firstn (Z.to_nat k) (rest s) /\ n = Z.of_nat (length bs) /\
